@@ -26,11 +26,11 @@ type refField struct{ Name, Type string }
 type aliasTable struct {
 	typeFwd  map[string]string // actual type  -> canonical type   ("fsutil.parentDir" -> "fsutil.parent")
 	typeRev  map[string]string
-	fieldFwd map[string]string // canonicalType.actualField -> canonical field name
-	fieldRev map[string]string // canonicalType.canonicalField -> actual field name
-	funcFwd  map[string]string // actual function name -> canonical function name
-	globRev  map[string]string // canonical package variable -> actual name
-	movedFwd map[string]string // "pkg.NewStruct.field" -> "pkg.OldOwner.oldField" (field regrouped into a nested struct)
+	fieldFwd map[string]string    // canonicalType.actualField -> canonical field name
+	fieldRev map[string]string    // canonicalType.canonicalField -> actual field name
+	funcFwd  map[string]string    // actual function name -> canonical function name
+	globRev  map[string]string    // canonical package variable -> actual name
+	movedFwd map[string]string    // "pkg.NewStruct.field" -> "pkg.OldOwner.oldField" (field regrouped into a nested struct)
 	movedRev map[string][2]string // "pkg.OldOwner.oldField" -> {"pkg.NewStruct", "field"}
 	notes    []string
 }
